@@ -16,6 +16,16 @@ from common import SPEC, MachineryError, scratch, rmtree
 JAR = "/opt/veriftools/tla/tla2tools.jar:/opt/veriftools/tla/CommunityModules-deps.jar"
 
 
+def _die_with_parent():
+    """the JVM must not outlive a killed check (PR_SET_PDEATHSIG = 1)"""
+    try:
+        import ctypes
+        import signal
+        ctypes.CDLL("libc.so.6").prctl(1, signal.SIGKILL)
+    except Exception:
+        pass
+
+
 class TLCResult(object):
     def __init__(self):
         self.generated = 0
@@ -106,7 +116,7 @@ def run_tlc(module, constants, invariants, properties=(), init="Init", nxt="Next
         with open(out_path, "w") as outf:
             try:
                 p = subprocess.run(cmd, cwd=SPEC, stdout=outf, stderr=subprocess.STDOUT,
-                                   timeout=timeout, env=e)
+                                   timeout=timeout, env=e, preexec_fn=_die_with_parent)
                 rc = p.returncode
             except subprocess.TimeoutExpired:
                 raise MachineryError("TLC timed out after %ds on %s %r" % (timeout, module, constants))
@@ -160,7 +170,8 @@ def run_tlc(module, constants, invariants, properties=(), init="Init", nxt="Next
             return res
         if "Error:" in text or rc != 0:
             # simulation mode ends with rc 0; anything else here is a machinery failure
-            tail = "\n".join(text.strip().split("\n")[-40:])
+            errs = [l for l in text.split("\n") if l.startswith("Error:")][:4]
+            tail = "\n".join(errs + text.strip().split("\n")[-12:])
             raise MachineryError("TLC failed on %s %r (rc=%s):\n%s" % (module, constants, rc, tail))
         if simulate is None and "Model checking completed. No error has been found." not in text:
             raise MachineryError("TLC did not complete on %s:\n%s" % (module, text[-3000:]))
